@@ -19,10 +19,11 @@ def check_C19(tier):
                        "/ conversion / merging outcomes after warm-up histories are compared with a fresh interpreter")
     run.assumptions += ["numpy is not installed: a minimal fake numpy (ndarray with ndim/tolist/item) is injected so that "
                         "instance-dependent classification and the blocklist are exercised",
-                        "late ABC registration is not in the pool (it changes the type, not the history)"]
+                        "late ABC registration is not in the pool (it changes the type, not the history)",
+                        "spec/ResolverProof.tla: TLAPS proof of C19_HistoryIndependent for histories of any length (TLC: length 3/4)"]
     cfg = tlc.cfg_text(constants={"Blocklisted": "TRUE", "MaxCalls": str(n)},
                        invariants=["C19_HistoryIndependent", "MemoSound", "ExportHist"])
-    res = tlc.run("Resolver", cfg, name="resolver", timeout=600, coverage=True)
+    res = tlc.run("MC_Resolver", cfg, name="resolver", timeout=600, coverage=True)
     if not res.ok:
         run.machinery_error(f"TLC Resolver: {res.violated} {res.errors[:2]} {res.tail(10)}")
         return run.finish()
@@ -30,10 +31,17 @@ def check_C19(tier):
     hists = [val.norm(h) for h in res.records("HIST")]
     # vacuity: without the blocklist the model must expose history dependence
     cfg2 = tlc.cfg_text(constants={"Blocklisted": "FALSE", "MaxCalls": "3"}, invariants=["C19_HistoryIndependent"])
-    r2 = tlc.run("Resolver", cfg2, name="resolver-selftest", timeout=300)
+    r2 = tlc.run("MC_Resolver", cfg2, name="resolver-selftest", timeout=300)
     if r2.violated != "C19_HistoryIndependent":
         run.machinery_error("self-test: Resolver.tla without the blocklist does not violate C19_HistoryIndependent")
     run.add_tlc(r2, "Resolver.tla Blocklisted=FALSE (must violate: witness of history dependence)")
+    # histories of UNBOUNDED length: the proof system checks that MemoSound + C19 are inductive
+    ok, nobl, tail = tlc.prove("ResolverProof", ["Resolver"])
+    if not ok:
+        run.machinery_error("TLAPS: ResolverProof.tla is not proved: " + tail)
+    else:
+        run.cov["tlaps"] = {"module": "ResolverProof", "obligations_proved": nobl,
+                            "theorem": "Init /\\ [][Next]_rvars => []C19_HistoryIndependent with the blocklist, any number of calls"}
     path = os.path.join(tlc.scratch(), "c19-hists.json")
     with open(path, "w") as f:
         json.dump(hists, f)
